@@ -76,8 +76,24 @@ ITEMSIZE = 24          # time, endtime, id  (3 x int64)
 
 
 # ============================================================================= vocabulary of REAL harness plugins
+# Every data type carries one id column.  Its field name is one of three "slots" (`id0`, `id1`, `id2`; two types that are ever
+# merged column-wise - a same-kind merge plugin, a multi-target request - sit in different slots), so that only a handful of
+# distinct structured dtypes exist and numba does not specialise strax's jitted kernels anew for every data type.
+_SLOTS: dict = {}
+
+
+def use_case(case):
+    """make the id-column names of this case current (one case at a time per process)"""
+    _SLOTS.clear()
+    _SLOTS.update(case.get("slots") or {})
+
+
+def idf(t):
+    return f"id{_SLOTS[t]}" if t in _SLOTS else idf(t)
+
+
 def dtype_of(t):
-    return strax.time_fields + [((f"Identity of {t}", f"id_{t}"), np.int64)]
+    return strax.time_fields + [((f"Identity, slot {idf(t)}", idf(t)), np.int64)]
 
 
 def mk_arr(t, rows):
@@ -85,12 +101,12 @@ def mk_arr(t, rows):
     if len(rows):
         a["time"] = [r[0] for r in rows]
         a["endtime"] = [r[1] for r in rows]
-        a[f"id_{t}"] = [r[2] for r in rows]
+        a[idf(t)] = [r[2] for r in rows]
     return a
 
 
 def rows_of(t, a):
-    return [[int(x), int(y), int(z)] for x, y, z in zip(a["time"], strax.endtime(a), a[f"id_{t}"])]
+    return [[int(x), int(y), int(z)] for x, y, z in zip(a["time"], strax.endtime(a), a[idf(t)])]
 
 
 def targets_of(target):
@@ -100,7 +116,7 @@ def targets_of(target):
 
 def rows_multi(tgts, a):
     """rows of a (merged) result: [time, endtime, id of tgts[0], id of tgts[1], …]"""
-    cols = [a[f"id_{t}"] for t in tgts]
+    cols = [a[idf(t)] for t in tgts]
     return [[int(x), int(y)] + [int(c[i]) for c in cols] for i, (x, y) in enumerate(zip(a["time"], strax.endtime(a)))]
 
 
@@ -119,7 +135,7 @@ def _out(self, t, time, endtime, ids):
     r = np.zeros(len(time), self.dtype_for(t))
     r["time"] = time
     r["endtime"] = endtime
-    r[f"id_{t}"] = ids
+    r[idf(t)] = ids
     return r
 
 
@@ -148,36 +164,36 @@ def _node_class(node, kinds, attrs):
     if k == "map":
         def compute(self, **kw):
             x = kw[kd0]
-            return _out(self, o0, x["time"], x["endtime"], (x[f"id_{d0}"] * 31 + c) % MOD)
+            return _out(self, o0, x["time"], x["endtime"], (x[idf(d0)] * 31 + c) % MOD)
         base = strax.Plugin
     elif k == "filter":
         m, r = node["m"], node["r"]
 
         def compute(self, **kw):
             x = kw[kd0]
-            x = x[x[f"id_{d0}"] % m != r]
-            return _out(self, o0, x["time"], x["endtime"], x[f"id_{d0}"])
+            x = x[x[idf(d0)] % m != r]
+            return _out(self, o0, x["time"], x["endtime"], x[idf(d0)])
         base = strax.Plugin
     elif k == "merge":
         d1 = deps[1]
 
         def compute(self, **kw):
             x = kw[kd0]
-            return _out(self, o0, x["time"], x["endtime"], (x[f"id_{d0}"] * 1009 + x[f"id_{d1}"] * 17 + 5) % MOD)
+            return _out(self, o0, x["time"], x["endtime"], (x[idf(d0)] * 1009 + x[idf(d1)] * 17 + 5) % MOD)
         base = strax.Plugin
     elif k == "multi":
         m, r, o1 = node["m"], node["r"], outs[1]
 
         def compute(self, **kw):
             x = kw[kd0]
-            y = x[x[f"id_{d0}"] % m != r]
-            return {o0: _out(self, o0, x["time"], x["endtime"], (x[f"id_{d0}"] * 31 + c) % MOD),
-                    o1: _out(self, o1, y["time"], y["endtime"], y[f"id_{d0}"])}
+            y = x[x[idf(d0)] % m != r]
+            return {o0: _out(self, o0, x["time"], x["endtime"], (x[idf(d0)] * 31 + c) % MOD),
+                    o1: _out(self, o1, y["time"], y["endtime"], y[idf(d0)])}
         base = strax.Plugin
     elif k == "pairfirst":
         def compute(self, **kw):
             x = kw[kd0]
-            return _out(self, o0, x["time"], x["endtime"], (x[f"id_{d0}"] * 31 + c) % MOD)
+            return _out(self, o0, x["time"], x["endtime"], (x[idf(d0)] * 31 + c) % MOD)
         base = strax.Plugin
     elif k == "loop":
         d1 = deps[1]
@@ -185,9 +201,9 @@ def _node_class(node, kinds, attrs):
 
         def compute_loop(self, b, **kw):
             th = kw[kd1]
-            s = int(th[f"id_{d1}"].sum()) if len(th) else 0
+            s = int(th[idf(d1)].sum()) if len(th) else 0
             return {"time": b["time"], "endtime": b["endtime"],
-                    f"id_{o0}": (int(b[f"id_{d0}"]) * 31 + s + 7 * len(th)) % MOD}
+                    idf(o0): (int(b[idf(d0)]) * 31 + s + 7 * len(th)) % MOD}
         attrs.update(compute_loop=compute_loop, loop_over=kd0)
         compute = None
         base = strax.LoopPlugin
@@ -198,7 +214,7 @@ def _node_class(node, kinds, attrs):
             x = kw[kd0]
             t = x["time"]
             n = np.array([int(np.sum(np.abs(t - ti) <= w)) for ti in t], dtype=np.int64)
-            return _out(self, o0, t, x["endtime"], (x[f"id_{d0}"] * 31 + n) % MOD)
+            return _out(self, o0, t, x["endtime"], (x[idf(d0)] * 31 + n) % MOD)
 
         def get_window_size(self):
             return w
@@ -209,7 +225,7 @@ def _node_class(node, kinds, attrs):
 
         def compute(self, start, end, **kw):
             x = kw[kd0]
-            res = _out(self, o0, x["time"], x["endtime"], (x[f"id_{d0}"] * 31 + c) % MOD)
+            res = _out(self, o0, x["time"], x["endtime"], (x[idf(d0)] * 31 + c) % MOD)
             last, off, seen_end = start, 0, None
             for i in range(len(res)):
                 t = int(res["time"][i])
@@ -224,7 +240,7 @@ def _node_class(node, kinds, attrs):
     elif k == "exhaust":
         def compute(self, **kw):
             x = kw[kd0]
-            return _out(self, o0, x["time"], x["endtime"], (x[f"id_{d0}"] * 31 + c + len(x)) % MOD)
+            return _out(self, o0, x["time"], x["endtime"], (x[idf(d0)] * 31 + c + len(x)) % MOD)
         base = strax.ExhaustPlugin
     else:
         raise ValueError(k)
@@ -278,6 +294,7 @@ def provider(case):
 
 def oracle_whole(case):
     """apply every harness plugin's compute to the whole, unchunked run in dependency order"""
+    use_case(case)
     st = strax.Context(storage=[], register=build_classes(case))
     whole = {}
     for s in case["srcs"]:
@@ -371,7 +388,12 @@ def _chunk_tuple(t, c):
     return [int(c.start), int(c.end), rows_of(t, c.data)]
 
 
-OVERLOAD = 1.5      # load average per core above which a single mailbox timeout is not taken as evidence of a deadlock
+# A mailbox timeout on the first attempt is re-run three times on the idle pool with the same timeout.  It is a violation
+# when it repeats at least once, or when the machine was not busy (load average per core below this value); on a busy machine
+# a single unreproduced timeout is recorded in the evidence notes instead (measured on the shared 16-core build machine at load
+# 30: five variants of one case, 80 runs each with a 15 s timeout, failed once each - threads of a starved process do stall
+# that long there)
+OVERLOAD = 0.75
 TIMEOUTISH = ("MailboxFullTimeout", "MailboxReadTimeout", "did not terminate", "timed out")
 
 
@@ -431,6 +453,7 @@ def _phase_of(case, res):
 def failing_inputs(case, res, text):
     """the chunk streams of the data types named by a D9 / D16 error text, as the single-thread processor delivers them
     in the phase that failed: {"plugin": first output of the failing plugin or None, "streams": {data type: chunks}}"""
+    use_case(case)
     import re
     _cfg, stored, _tgt, twin_phase = _phase_of(case, res)
     names = set()
@@ -512,6 +535,7 @@ def recording_post_office(rec):
 
 def run_case_once(case):
     """returns a JSON-able record of what the real code did: canonical line, chunks, storage read-back, timings"""
+    use_case(case)
     res = dict(line=None, exc=None, phase="main", elapsed=0.0, chunks=None, saved={}, prep=[], expect=None, oracle_exc=None)
     d = tempfile.mkdtemp(prefix="c01_", dir=os.environ.get("VERIF_C01_TMP") or None)
     sink = io.StringIO()
@@ -625,6 +649,14 @@ def op_iter(case, deps, streams, strict):
 
 
 def op_passes(case, node, streams, strict):
+    # trailing zero-duration chunks carry no rows and raise an error of their own (D16) whatever the pass limit: they are
+    # left out so that "more passes would succeed" can be seen
+    def trim(ch):
+        ch = list(ch)
+        while len(ch) > 1 and ch[-1][0] == ch[-1][1]:
+            ch.pop()
+        return ch
+    streams = {d: trim(v) for d, v in streams.items()}
     deps = " ".join(";".join([d, case["kinds"][d]] + [f"{a}~{b}~{sl.show_rows([tuple(r) for r in rows])}"
                                                       for a, b, rows in streams[d]]) for d in node["deps"])
     return f"c08.hyp {int(strict)} {case['span'][0]} {deps}"
@@ -681,8 +713,8 @@ def _judge(case, res, cfg, stored, tgt, where, model):
                 k = sum(1 for r in reruns if r.startswith("err"))
                 tail = (f"; {k} of {len(reruns)} re-runs on the idle pool with the same timeout failed as well ({', '.join(reruns)[:120]}); "
                         f"load per core at the failure {res.get('load')}")
-                if k == 0 and (res.get("load") or 0) > OVERLOAD:
-                    res["noted"] = (f"{brief(case)}: {line} ({(res['exc'] or '')[:80]}) on an overloaded machine (load per core "
+                if k == 0 and (res.get("load") or 0) >= OVERLOAD:
+                    res["noted"] = (f"{brief(case)}: {line} ({(res['exc'] or '')[:80]}) on a busy machine (load per core "
                                     f"{res.get('load')}), not reproduced in {len(reruns)} re-runs on the idle pool")
                     return None
                 return f"{where} raised {exc[:200]} instead of returning the whole-run rows{tail}"
@@ -784,6 +816,7 @@ def gen_case(rng, quick=True, force=None):
     n_src = 2 if force.get("brick") else (1 if (force.get("ovl") or force.get("exh")) else rng.choice([1, 1, 2]))
     ovl_w = rng.choice([5, 10, 20]) if force.get("ovl") else None
     kinds, disjoint, root = {}, {}, {}
+    slots = {"sa": 0, "sb": 1}
     srcs = []
     if force.get("brick"):
         ra, rb = brick_sources(rng)
@@ -867,6 +900,7 @@ def gen_case(rng, quick=True, force=None):
         nodes.append(node)
         for o, kd, dj in zip(outs, out_kinds, out_dis):
             kinds[o], disjoint[o] = kd, dj
+            slots.setdefault(o, rng.randrange(3))
             root[o] = set().union(*[root[d] for d in deps])
             types.append(o)
 
@@ -876,6 +910,7 @@ def gen_case(rng, quick=True, force=None):
     if force.get("exh"):
         # a row-wise (or down-chunking) plugin and an exhaust plugin read the same source
         x, y = fresh(), fresh()
+        slots[x], slots[y] = 1, 2           # merged column-wise below: different id columns
         if rng.random() < 0.7:
             add("map", ["sa"], [x], ["sa"], [disjoint["sa"]], c=rng.randint(0, 9))
         else:
@@ -900,7 +935,7 @@ def gen_case(rng, quick=True, force=None):
             o = fresh()
             add(kind, [d], [o], [o], [disjoint[d]], m=rng.choice([2, 3, 5]), r=rng.randint(0, 1))
         elif kind == "merge":
-            same = [(x, y) for x in types for y in types if x != y and kinds[x] == kinds[y]]
+            same = [(x, y) for x in types for y in types if x != y and kinds[x] == kinds[y] and slots[x] != slots[y]]
             if not same:
                 continue
             x, y = rng.choice(same)
@@ -953,7 +988,7 @@ def gen_case(rng, quick=True, force=None):
             derived.append(o)
             target = o
     elif not force and rng.random() < 0.12:
-        pairs = [(x, y) for x in derived for y in derived if x != y and kinds[x] == kinds[y]]
+        pairs = [(x, y) for x in derived for y in derived if x != y and kinds[x] == kinds[y] and slots[x] != slots[y]]
         if pairs:
             target = ",".join(rng.choice(pairs))
     # ---- what is already stored
@@ -984,7 +1019,7 @@ def gen_case(rng, quick=True, force=None):
         cfg = dict(proc=proc, workers=rng.choice([None, 1, 2, 4]), lazy=rng.random() < 0.5, mm=rng.randint(2, 6),
                    rechunk=rng.random() < 0.7, timeout=rng.choice([45, 60]))
         return cfg
-    case = dict(srcs=srcs, nodes=nodes, kinds=kinds, span=[t0, t1], target=target, stored=stored,
+    case = dict(srcs=srcs, nodes=nodes, kinds=kinds, slots={t: slots[t] for t in kinds}, span=[t0, t1], target=target, stored=stored,
                 cfg=config(False), prep_cfg=config(True), mode="array" if rng.random() < 0.2 else "iter")
     # capacity above the lag of the graph (see ASSUMPTIONS): when a data type has two readers whose results meet again
     # downstream (one feeds the other, or both feed a third), one reader must be able to wait while the other reads ahead - by the whole run behind an
@@ -1142,7 +1177,7 @@ def _worker(args):
     return i, res
 
 
-def run_pool(cases, workers, budget_s, note=None, stall_s=400, dead_s=150):
+def run_pool(cases, workers, budget_s, note=None, stall_s=400, dead_s=150, min_cases=0, hard_s=None):
     """run the cases in forked worker processes (each has strax imported through lib.straxlib); stops feeding new
     cases after `budget_s`; a case that has not come back `stall_s` seconds after it was handed out is a hang"""
     import multiprocessing as mp
@@ -1169,6 +1204,7 @@ def run_pool(cases, workers, budget_s, note=None, stall_s=400, dead_s=150):
     results, flight = {}, {}
     todo = list(enumerate(cases))[::-1]
     t_end = time.time() + budget_s
+    t_hard = time.time() + (hard_s or budget_s)
     last_result = time.time()
     restarts = 0
 
@@ -1176,8 +1212,11 @@ def run_pool(cases, workers, budget_s, note=None, stall_s=400, dead_s=150):
         return dict(line="err Hang", exc=why, phase="main", elapsed=float(stall_s), chunks=None, saved={}, prep=[],
                     expect={}, oracle_exc=None, rows=None, hang=True)
     try:
-        while flight or (todo and time.time() < t_end):
-            while todo and len(flight) < workers + 2 and time.time() < t_end:
+        def feeding():
+            now = time.time()
+            return now < t_end or (len(results) + len(flight) < min_cases and now < t_hard)
+        while flight or (todo and feeding()):
+            while todo and len(flight) < workers + 2 and feeding():
                 i, case = todo.pop()
                 flight[i] = (pool.apply_async(_worker, ((i, case),)), time.time())
             progressed = False
@@ -1289,7 +1328,7 @@ def d13_corpus():
 
 def gen_cases(ctx):
     n = ctx.pick(900, 9000)
-    cases = d13_corpus()
+    cases = []
     for i in range(n):
         force = None
         if i % 40 == 7:
@@ -1301,13 +1340,22 @@ def gen_cases(ctx):
         elif i % 12 == 9:
             force = {"ovl": True}
         cases.append(gen_case(ctx.rng, quick=not ctx.thorough, force=force))
-    return cases
+    # the corpus runs early but does not monopolise the start of the run: one corpus case after every second random case
+    corpus, out = d13_corpus(), []
+    for i, c in enumerate(cases):
+        out.append(c)
+        if i % 2 == 1 and corpus:
+            out.append(corpus.pop(0))
+    return out + corpus
 
 
 def run(ctx):
     cases = gen_cases(ctx)
     workers = int(os.environ.get("VERIF_C01_WORKERS", "8"))
-    results = run_pool(cases, workers, ctx.pick(100, 1000), note=ctx.note)
+    # hand out cases for 100 s (1000 s), but for at least 300 (3000) runs - a cold numba cache or a busy machine must not
+    # shrink the sample to a few dozen - and never longer than 420 s (1500 s)
+    results = run_pool(cases, workers, ctx.pick(100, 1000), note=ctx.note, min_cases=ctx.pick(300, 3000),
+                       hard_s=ctx.pick(420, 1500))
     done = [i for i in range(len(cases)) if i in results]
     # mailbox timeouts that have no root cause: the first failure stays the verdict; three re-runs with the same timeout
     # on the now idle pool only say how reproducible it is
